@@ -248,11 +248,21 @@ func doAppend(fs hackpadfs.FS, o Op) (obs fsad.Obs) {
 	return obs
 }
 
+// Opts selects the scheduling points beyond whole store transactions.
+type Opts struct {
+	GateBlobs  bool `json:"gate_blobs"`   // blob operations of file records
+	GateTxnOps bool `json:"gate_txn_ops"` // every Get/Set inside a store transaction
+}
+
+// blockedAfter: a released thread that has not reached its next scheduling point after this long, while
+// another thread waits at a gate inside an open store transaction, is taken to be blocked on the store.
+const blockedAfter = 25 * time.Millisecond
+
 // Run executes the program once, following the schedule prefix and then always releasing the lowest
 // runnable thread; it returns the outcome and the choice points met.
-func Run(p Program, prefix []int, gateBlobs bool) (Outcome, []choice) {
+func Run(p Program, prefix []int, opts Opts) (Outcome, []choice) {
 	inner := mem.NewStoreForVerif()
-	ctl := &kvctl.Ctl{GateBlobs: gateBlobs}
+	ctl := &kvctl.Ctl{GateBlobs: opts.GateBlobs, GateTxnOps: opts.GateTxnOps}
 	setupFS, err := keyvalue.NewFS(&kvctl.Txn{In: inner, C: ctl, Thread: -1})
 	if err != nil {
 		panic(err)
@@ -310,21 +320,61 @@ func Run(p Program, prefix []int, gateBlobs bool) (Outcome, []choice) {
 	running := n // threads started and not yet at a gate / finished
 	finished := 0
 	step := 0
+	blocked := map[int]bool{} // released threads presumed to wait for the store held by a gated thread
+	isRunning := map[int]bool{}
+	for i := 0; i < n; i++ {
+		isRunning[i] = true
+	}
+	holderGated := func() bool {
+		if !opts.GateTxnOps {
+			return false
+		}
+		s.mu.Lock()
+		defer s.mu.Unlock()
+		for t := range s.atGate {
+			if ctl.HasOpenTxn(t) {
+				return true
+			}
+		}
+		return false
+	}
 	for finished < n {
-		// wait until every thread is at a gate or finished (only one runs at a time, plus the initial start-up)
-		for running > 0 {
+		// wait until every thread is at a gate, finished, or blocked behind a gated thread's open transaction
+		for {
+			hg := holderGated()
+			if !hg {
+				for t := range blocked {
+					delete(blocked, t) // nobody at a gate holds the store: they will proceed
+				}
+			}
+			if running-len(blocked) <= 0 {
+				break
+			}
+			wait := 10 * time.Second
+			if hg {
+				wait = blockedAfter
+			}
 			select {
 			case t := <-s.arrived:
 				running--
 				if t < 0 {
 					done[-1-t] = true
 					finished++
+					delete(isRunning, -1-t)
+					delete(blocked, -1-t)
 				} else {
 					waiting++
+					delete(isRunning, t)
+					delete(blocked, t)
 				}
-			case <-time.After(10 * time.Second):
-				out.Hang = true
-				return out, choices
+			case <-time.After(wait):
+				if !hg {
+					out.Hang = true
+					return out, choices
+				}
+				for t := range isRunning {
+					blocked[t] = true
+				}
 			}
 		}
 		if finished == n {
@@ -365,6 +415,7 @@ func Run(p Program, prefix []int, gateBlobs bool) (Outcome, []choice) {
 		s.mu.Unlock()
 		waiting--
 		running++
+		isRunning[pick] = true
 		step++
 		close(ch)
 	}
@@ -382,14 +433,14 @@ func Run(p Program, prefix []int, gateBlobs bool) (Outcome, []choice) {
 
 // Explore enumerates all schedules of p by depth-first search over the choice points (stateless: every
 // schedule is a fresh execution), up to max schedules.
-func Explore(p Program, gateBlobs bool, max int, visit func(Outcome)) (count int, truncated bool) {
+func Explore(p Program, opts Opts, max int, visit func(Outcome)) (count int, truncated bool) {
 	var rec func(prefix []int)
 	rec = func(prefix []int) {
 		if count >= max {
 			truncated = true
 			return
 		}
-		out, choices := Run(p, prefix, gateBlobs)
+		out, choices := Run(p, prefix, opts)
 		count++
 		visit(out)
 		for i := len(prefix); i < len(choices); i++ {
